@@ -80,6 +80,7 @@ static long maxsteps = 200000, clock_step = 1000;
 static int clocklog = 0;   /* case option `clocklog 1` (C20): clock readings are scheduling points and logged (see ctl_clock) */
 static uint64_t seed = 1;
 static int dflt_parent_first = 0;
+static int g_child_first_opt = -1;
 /* targeted preemption (case option `hold <point-id> <moves> [<percent>]`): a participant arriving at that
    POINT is switched away and stays disabled until <moves> real moves of other participants have happened
    (or nobody else is enabled); applied with probability <percent> (default 100) */
@@ -308,6 +309,48 @@ static void pr_val(long val) {
   else fprintf(tr, "big");
 }
 
+/* additive field of the alloc.stack / free.stack E lines (C12):
+     alloc.stack ... | b<k> word=<size word above the top> ext=<bytes the thread may use below top+16> ovl=<b<j>|-> on=<b<j>|->
+     free.stack  ... | b<k> word=<size word> on=<b<j>|->
+   b<k> = the block behind the stack (first-seen order of its start address top+16-ext; a block that is handed out
+   again with another size of its class keeps its k although its top pointer, hence s<k>, differs), ext = the
+   page-rounded requested size (g_attr.stacksize for the default size 0), ovl = a block whose extent is live and
+   overlaps [top+16-ext, top+16), on = the live block that contains the stack pointer of the worker executing the
+   event.  No address is printed. */
+extern myth_globalattr_t g_attr;
+static uintptr_t blk_lo[MAXSTK], blk_hi[MAXSTK]; static int blk_live[MAXSTK]; static int n_blk;
+static int blk_containing(uintptr_t a) {
+  for (int i = 0; i < n_blk; i++) if (blk_live[i] && a >= blk_lo[i] && a < blk_hi[i]) return i;
+  return -1;
+}
+static void stack_tail(const char * id, const void * obj, long val, uintptr_t sp) {
+  uintptr_t top = (uintptr_t)obj;
+  if (!top) return;
+  uintptr_t word = *(uintptr_t *)(top + sizeof(void *));
+  int on = blk_containing(sp), k = -1;
+  char onb[16]; if (on >= 0) sprintf(onb, "b%d", on); else strcpy(onb, "-");
+  if (!strcmp(id, "alloc.stack")) {
+    size_t ext = val ? (((size_t)val + 0xFFF) & ~(size_t)0xFFF) : g_attr.stacksize;
+    uintptr_t lo = top + 2 * sizeof(void *) - ext, hi = top + 2 * sizeof(void *);
+    int ovl = -1;
+    for (int i = 0; i < n_blk; i++) {
+      if (blk_lo[i] == lo) k = i;
+      else if (blk_live[i] && blk_lo[i] < hi && lo < blk_hi[i]) ovl = i;
+    }
+    if (k < 0 && n_blk < MAXSTK) { k = n_blk++; blk_lo[k] = lo; }
+    if (k >= 0) { if (blk_live[k]) ovl = k; blk_hi[k] = hi; blk_live[k] = 1; }
+    fprintf(tr, " | b%d word=%lu ext=%zu ovl=", k, (unsigned long)word, ext);
+    if (ovl >= 0) fprintf(tr, "b%d", ovl); else fprintf(tr, "-");
+    fprintf(tr, " on=%s", onb);
+  } else {
+    size_t ext = word ? (size_t)word : g_attr.stacksize;
+    uintptr_t lo = top + 2 * sizeof(void *) - ext;
+    for (int i = 0; i < n_blk; i++) if (blk_lo[i] == lo) k = i;
+    fprintf(tr, " | b%d word=%lu on=%s", k, (unsigned long)word, onb);
+    if (k >= 0) blk_live[k] = 0;
+  }
+}
+
 /* the callback installed in g_myth_verif_cb */
 static void ctl_cb(int kind, const char * id, const void * obj, long val) {
   char b[16];
@@ -329,6 +372,7 @@ static void ctl_cb(int kind, const char * id, const void * obj, long val) {
   if (kind == MYTH_VERIF_KIND_EVENT) {
     fprintf(tr, "E %ld w%d %s %s ", step_no, w, aname(w, b), id);
     pr_objref(id, obj); fprintf(tr, " "); pr_val(val);
+    if (!strcmp(id, "alloc.stack") || !strcmp(id, "free.stack")) stack_tail(id, obj, val, (uintptr_t)&b[0]);
     if (!strcmp(id, "alloc.desc") || !strcmp(id, "free.desc")) {
       /* record identity: d<k> in first-seen order of the record's address (additive field, C13) */
       int k = -1;
@@ -517,14 +561,19 @@ static void run_ops(int T, prog_t * p, void ** exit_val) {
     if (!strcmp(op, "create")) {
       int C = (int)num(o->w[1]);
       myth_thread_attr_t a; myth_thread_t id = 0;
-      int use_attr = has(o, "pf") || has(o, "cf") || has(o, "det") || kv(o, "ss", -1) >= 0 || has(o, "attr") || dflt_parent_first;
+      int use_attr = has(o, "pf") || has(o, "cf") || has(o, "det") || kv(o, "ss", -1) >= 0 || has(o, "attr") || dflt_parent_first ||
+                     kv(o, "gs", -1) >= 0 || kv(o, "stk", -1) >= 0;
       pending_tag[my_rank()] = C;
       if (use_attr) {
         memset(&a, 0x5a, sizeof(a));           /* dirty memory: attr_init must set every field */
         myth_thread_attr_init(&a);
         if (has(o, "pf") || (dflt_parent_first && !has(o, "cf"))) a.child_first = 0;
+        if (has(o, "cf")) a.child_first = 1;     /* (matters only when the global default is parent-first) */
         if (has(o, "det")) myth_thread_attr_setdetachstate(&a, 1);
         if (kv(o, "ss", -1) >= 0) myth_thread_attr_setstacksize(&a, (size_t)kv(o, "ss", 0));
+        /* the remaining public setters (C01): guard size; stack = (address, size) - the address is a dummy */
+        if (kv(o, "gs", -1) >= 0) myth_thread_attr_setguardsize(&a, (size_t)kv(o, "gs", 0));
+        if (kv(o, "stk", -1) >= 0) { static char dummy_stack[64]; myth_thread_attr_setstack(&a, dummy_stack, (size_t)kv(o, "stk", 0)); }
         r = myth_create_ex(has(o, "nullid") ? 0 : &id, &a, thread_main, (void *)(long)C);
       } else {
         r = myth_create_ex(has(o, "nullid") ? 0 : &id, 0, thread_main, (void *)(long)C);
@@ -648,6 +697,9 @@ static void run_ops(int T, prog_t * p, void ** exit_val) {
       sprintf(ex, "occ=%ld status=%d", __sync_add_and_fetch(&f->occ, 1), f->u.f.status);
     } else if (!strcmp(op, "feunlock")) {
       obj_t * f = obj_named(o->w[1]); __sync_sub_and_fetch(&f->occ, 1); r = myth_felock_unlock(&f->u.f);
+    } else if (!strcmp(op, "festatus")) {
+      /* festatus F : r = myth_felock_status(F) (an unlocked read of the status word, no POINT) (C09) */
+      obj_t * f = obj_named(o->w[1]); r = myth_felock_status(&f->u.f);
     } else if (!strcmp(op, "once")) {
       obj_t * oc = obj_named(o->w[1]); once_T = T; once_script = oc->script;
       r = myth_once(&oc->u.o, once_routine);
@@ -729,6 +781,10 @@ static void load_case(const char * path) {
     else if (!strcmp(k, "clockstep")) clock_step = atol(rest);
     else if (!strcmp(k, "clocklog")) clocklog = atoi(rest);
     else if (!strcmp(k, "parentfirst")) dflt_parent_first = atoi(rest);
+    /* GLOBAL default creation order (C01): `gchildfirst V` through myth_globalattr_set_child_first(&ga, V),
+       `envchildfirst V` through the environment variable MYTH_CHILD_FIRST=V read by myth_globalattr_init */
+    else if (!strcmp(k, "gchildfirst")) g_child_first_opt = atoi(rest);
+    else if (!strcmp(k, "envchildfirst")) { char b[16]; sprintf(b, "%d", atoi(rest)); setenv("MYTH_CHILD_FIRST", b, 1); }
     else if (!strcmp(k, "obj")) {
       obj_t * o = &objs[n_objs]; char kn[24]; long p1 = 0, p2 = 0;
       int n = sscanf(rest, "%23s %23s %ld %ld", o->name, kn, &p1, &p2);
@@ -775,6 +831,7 @@ int main(int argc, char ** argv) {
   g_myth_verif_clock = ctl_clock;
   myth_globalattr_t ga; myth_globalattr_init(&ga);
   myth_globalattr_set_n_workers(&ga, n_workers);
+  if (g_child_first_opt >= 0) { extern int myth_globalattr_set_child_first(myth_globalattr_t *, int); myth_globalattr_set_child_first(&ga, g_child_first_opt); }
   myth_wsapi_set_stealfunc(ctl_steal);
   myth_init_ex(&ga);
   g_myth_random_temp = (unsigned)(seed * 31 + 1);
